@@ -3,7 +3,9 @@ import itertools
 import lib
 from lib import cnat, clist, cpair
 
-NAME_POOL = ["A", "B c", "été", "x-lower", "D/sub", "名前", "E e", "F", "g", "H h h"]
+NAME_POOL = ["A", "B c", "été", "x-lower", "D/sub", "名前", "E e", "F", "g", "H h h",
+             # names that begin with something a title lookup could take for a namespace prefix
+             "T:section", "Main:see", "template:low", "Template:twice", "t:x", "Module:m"]
 
 
 def spec_run(case, present, premarked):
@@ -135,6 +137,12 @@ def run(run):
             run.property_failure(signature(c, gots[-1] if gots[0] == wants[0] else gots[0],
                                            wants[-1] if gots[0] == wants[0] else wants[0]) + which,
                                  "marked sets %r differ from the closures %r" % (gots, wants), c)
+        for k, x in enumerate(r["runs"]):
+            if x.get("looked_up") is not None and x["looked_up"] != x["marked"]:
+                run.property_failure("c17:marks-not-visible-to-lookups",
+                                     "after analysis %d the stored marks are %r but get_page() on the same context reports %r"
+                                     % (k + 1, x["marked"], x["looked_up"]), c)
+                break
         if r["classified"] != list(range(len(c["names"]))):
             run.correspondence_break("classifier not called exactly once per template", c, got=r["classified"])
         for cc in coq_cases_of(c, r["runs"]):
